@@ -81,7 +81,7 @@ class Ctx:
         return results
 
     def _account(self, case, res):
-        self.n += 1
+        self.n += int(res.get('evals') or 1)
         o = res.get('outcome')
         self.outcomes[o] = self.outcomes.get(o, 0) + 1
         if o == 'harness-error':
